@@ -16,7 +16,8 @@
 From Coq Require Import List NArith ZArith Bool.
 From LW Require Import Base.Outcome Base.Bytes App.Common App.Spec.
 From LW Require App.ClockSync App.Multicast App.FragCmds App.FwMgmt App.McKeys App.McKeysSpec
-     App.ClockSyncProofs App.MulticastProofs App.FragCmdsProofs App.FwMgmtProofs App.McKeysProofs.
+     App.ClockSyncProofs App.MulticastProofs App.FragCmdsProofs App.FwMgmtProofs App.McKeysProofs
+     App.DecodeTotalProofs.
 Import ListNotations.
 Open Scope N_scope.
 
@@ -128,6 +129,16 @@ Proof.
   split; [exact (FragCmdsProofs.stream_dec_terminates up data)|exact (FwMgmtProofs.stream_dec_terminates up data)].
 Qed.
 Print Assumptions C18_stream_decoders_terminate.
+
+(* ... and never panic: every index and slice expression of the decoders is in
+   range after the length tests, for every byte string and either direction *)
+Theorem C18_decoders_no_panic : forall up data,
+  ClockSync.cmds_dec up data <> Panic /\ Multicast.cmds_dec up data <> Panic
+  /\ FragCmds.cmds_dec up data <> Panic /\ FwMgmt.cmds_dec up data <> Panic
+  /\ ClockSync.cmd_dec up data <> Panic /\ Multicast.cmd_dec up data <> Panic
+  /\ FragCmds.cmd_dec up data <> Panic /\ FwMgmt.cmd_dec up data <> Panic.
+Proof. exact DecodeTotalProofs.decoders_no_panic. Qed.
+Print Assumptions C18_decoders_no_panic.
 
 (* ---- multicast keys (TS005), over LW.Crypto.AES.aes_encrypt -------------- *)
 Theorem C18_mckeys_spec : forall key addr, addr_ok addr = true ->
